@@ -28,6 +28,12 @@ Proof.
   apply M; [apply anc_refl|exact A].
 Qed.
 
+Lemma lca_comm t a b : lca t a b = lca t b a.
+Proof.
+  destruct (lca_spec t a b) as [A1 [A2 AM]]. destruct (lca_spec t b a) as [B1 [B2 BM]].
+  apply (anc_antisym t); [apply BM|apply AM]; assumption.
+Qed.
+
 (* ================= "highest" ================= *)
 Lemma highest_spec start m :
   let r := highest start m in
@@ -194,6 +200,64 @@ Proof.
   apply (sa_loop_complete _ (gv_block v0) (selected_ancestors_ok (gv_block v0)) votes m votes_known G LM v Iv NC T).
 Qed.
 
+(* the pairwise pass of the repaired getPossibleSelectedBlocks *)
+Lemma has_key_spec (m : list (block * N)) b :
+  existsb (fun p => (fst p =? b)%nat) m = true <-> exists n, In (b, n) m.
+Proof.
+  rewrite existsb_exists. split.
+  - intros [[c n] [I E]]. cbn in E. apply Nat.eqb_eq in E. subst c. eauto.
+  - intros [n I]. exists (b, n). split; [exact I|apply Nat.eqb_refl].
+Qed.
+
+Lemma pair_step m pred : good m -> in_tree t pred ->
+  let m' := if existsb (fun p => (fst p =? pred)%nat) m then m
+            else if (thr <? total_votes e st sg pred)%N then bset pred (number e pred) m else m in
+  good m' /\ ext m m' /\ ((thr < tot pred)%N -> In (pred, number e pred) m').
+Proof.
+  intros G IP. cbn zeta.
+  destruct (existsb (fun p => (fst p =? pred)%nat) m) eqn:K.
+  - split; [exact G|]. split; [apply ext_refl|]. intros _.
+    apply has_key_spec in K. destruct K as [n I]. destruct (proj2 G pred n I) as [-> _]. exact I.
+  - destruct (N.ltb_spec thr (total_votes e st sg pred)) as [L|L].
+    + destruct (good_bset m pred G L IP) as [G' [E' IN']]. auto.
+    + split; [exact G|]. split; [apply ext_refl|]. unfold tot. lia.
+Qed.
+
+Lemma pair_inner_spec a : in_tree t (gv_block a) ->
+  forall vs m, good m ->
+  good (pair_pass_inner e st sg thr a vs m) /\ ext m (pair_pass_inner e st sg thr a vs m) /\
+  (forall b, In b vs -> (thr < tot (lca t (gv_block a) (gv_block b)))%N ->
+     In (lca t (gv_block a) (gv_block b), number e (lca t (gv_block a) (gv_block b))) (pair_pass_inner e st sg thr a vs m)).
+Proof.
+  intros IA. induction vs as [|b r IH]; intros m G; cbn [pair_pass_inner].
+  - split; [exact G|]. split; [apply ext_refl|]. intros b [].
+  - fold t. set (pred := lca t (gv_block a) (gv_block b)).
+    assert (IP : in_tree t pred) by (apply (anc_in_tree t pred (gv_block a)); [apply lca_spec|exact IA]).
+    destruct (pair_step m pred G IP) as [G' [E' C']].
+    destruct (IH _ G') as [G2 [E2 C2]].
+    split; [exact G2|]. split; [eapply ext_trans; eauto|].
+    intros c [<-|I] T; [apply E2, C'; exact T|now apply C2].
+Qed.
+
+Lemma pair_pass_spec : forall vs m, (forall v, In v vs -> in_tree t (gv_block v)) -> good m ->
+  good (pair_pass e st sg thr vs m) /\ ext m (pair_pass e st sg thr vs m) /\
+  (forall a b, In a vs -> In b vs -> gv_block a <> gv_block b ->
+     (thr < tot (lca t (gv_block a) (gv_block b)))%N ->
+     In (lca t (gv_block a) (gv_block b), number e (lca t (gv_block a) (gv_block b))) (pair_pass e st sg thr vs m)).
+Proof.
+  induction vs as [|x r IH]; intros m K G; cbn [pair_pass].
+  - split; [exact G|]. split; [apply ext_refl|]. intros a b [].
+  - assert (K' : forall v, In v r -> in_tree t (gv_block v)) by (intros; apply K; now right).
+    destruct (pair_inner_spec x (K x (or_introl eq_refl)) r m G) as [G1 [E1 C1]].
+    destruct (IH _ K' G1) as [G2 [E2 C2]].
+    split; [exact G2|]. split; [eapply ext_trans; eauto|].
+    intros a b [<-|Ia] [<-|Ib] NE T.
+    + congruence.
+    + apply E2. now apply C1.
+    + rewrite (lca_comm t (gv_block a) (gv_block x)) in *. apply E2. now apply C1.
+    + now apply C2.
+Qed.
+
 (* the first part: directly voted blocks *)
 Definition direct_pass (vs : list gvote) (m : list (block * N)) : list (block * N) :=
   fold_left (fun m v => if (thr <? total_votes e st sg (gv_block v))%N
@@ -307,20 +371,38 @@ Proof. intros v I. now apply (stored_known Prevote v). Qed.
 Lemma votes_clean : forall v, In v votes -> gv_num v = number e (gv_block v).
 Proof. intros v I. now apply (stored_known Prevote v). Qed.
 
+Let direct := direct_pass e st Prevote thr votes [].
+Let paired := pair_pass e st Prevote thr votes direct.
+
 Lemma psb_unfold : possible_selected_blocks e st Prevote thr =
-  match direct_pass e st Prevote thr votes [] with
-  | _ :: _ => direct_pass e st Prevote thr votes []
+  match paired with
+  | _ :: _ => paired
   | [] => anc_pass e st Prevote thr votes votes []
   end.
 Proof. reflexivity. Qed.
 
+Lemma direct_good : good e st Prevote thr direct /\
+  (forall v, In v votes -> (thr < total_votes e st Prevote (gv_block v))%N -> In (gv_block v, number e (gv_block v)) direct).
+Proof.
+  destruct (direct_pass_spec e st Prevote thr votes votes_known votes_clean votes (fun v I => I) [] (good_nil _ _ _ _))
+    as [G [_ [C _]]]. split; [exact G|exact C].
+Qed.
+
+Lemma paired_good : good e st Prevote thr paired /\ ext direct paired /\
+  (forall a b, In a votes -> In b votes -> gv_block a <> gv_block b ->
+     (thr < total_votes e st Prevote (lca t (gv_block a) (gv_block b)))%N ->
+     In (lca t (gv_block a) (gv_block b), number e (lca t (gv_block a) (gv_block b))) paired).
+Proof. exact (pair_pass_spec e st Prevote thr votes direct votes_known (proj1 direct_good)). Qed.
+
 Lemma psb_good : good e st Prevote thr (possible_selected_blocks e st Prevote thr).
 Proof.
-  rewrite psb_unfold.
-  destruct (direct_pass_spec e st Prevote thr votes votes_known votes_clean votes (fun v I => I) [] (good_nil _ _ _ _)) as [G _].
-  destruct (direct_pass e st Prevote thr votes []) eqn:D; [|exact G].
+  rewrite psb_unfold. destruct paired_good as [G _].
+  destruct paired eqn:D; [|exact G].
   apply anc_pass_sound; [exact votes_known|apply good_nil].
 Qed.
+
+Lemma psb_of_paired p : In p paired -> In p (possible_selected_blocks e st Prevote thr).
+Proof. intro I. rewrite psb_unfold. destruct paired; [destruct I|exact I]. Qed.
 
 (* every selected block has more than 2/3 of the prevotes, hence is the ghost or above it *)
 Lemma psb_anc_ghost b n : In (b, n) (possible_selected_blocks e st Prevote thr) ->
@@ -370,27 +452,12 @@ Proof.
   intro DV. unfold directly_voted in DV. apply existsb_exists in DV. destruct DV as [[a v] [I E]].
   cbn in E. apply Nat.eqb_eq in E.
   assert (Iv : In v votes) by (apply direct_votes_in; eauto).
-  destruct (direct_pass_spec e st Prevote thr votes votes_known votes_clean votes (fun v I => I) [] (good_nil _ _ _ _))
-    as [_ [_ [C _]]].
   assert (T : (thr < total_votes e st Prevote (gv_block v))%N) by (rewrite E; apply sm_lt; apply ghost_facts).
-  pose proof (C v Iv T) as IN. rewrite E in IN. rewrite psb_unfold.
-  destruct (direct_pass e st Prevote thr votes []); [destruct IN|exact IN].
+  pose proof (proj2 direct_good v Iv T) as IN. rewrite E in IN.
+  apply psb_of_paired. now apply paired_good.
 Qed.
 
 (* ---- case B: no vote target has more than 2/3: the ghost is a fork point of vote targets ---- *)
-Lemma no_direct_sm_empty :
-  (forall p, In p (s_pv st) -> spec_supermajority e st Prevote (gv_block (snd p)) = false) ->
-  direct_pass e st Prevote thr votes [] = [].
-Proof.
-  intro NS.
-  destruct (direct_pass_spec e st Prevote thr votes votes_known votes_clean votes (fun v I => I) [] (good_nil _ _ _ _))
-    as [[_ G] [_ [_ O]]].
-  destruct (direct_pass e st Prevote thr votes []) as [|[b n] r] eqn:D; [reflexivity|exfalso].
-  destruct (O (b, n) (or_introl eq_refl)) as [[]|[v [Iv Ev]]]. cbn in Ev. subst b.
-  destruct (G _ _ (or_introl eq_refl)) as [_ [T _]]. apply sm_lt in T.
-  apply direct_votes_in in Iv. destruct Iv as [a Iv]. pose proof (NS (a, v) Iv) as X. cbn in X. congruence.
-Qed.
-
 (* the vote target of largest index below the ghost *)
 Lemma max_target (P : block -> bool) (l : list gvote) : (exists v, In v l /\ P (gv_block v) = true) ->
   exists a, In a l /\ P (gv_block a) = true /\
@@ -430,12 +497,12 @@ Lemma votes_for_block_filter sg b :
   votes_for_block e st sg b = N.of_nat (length (filter (fun p => ancb t b (gv_block (snd p))) (votes_of st sg))).
 Proof. reflexivity. Qed.
 
-Lemma fork_point_selected :
+Lemma fork_point_exists :
   directly_voted st Prevote g = false ->
-  (forall p, In p (s_pv st) -> spec_supermajority e st Prevote (gv_block (snd p)) = false) ->
-  In (g, number e g) (possible_selected_blocks e st Prevote thr).
+  exists a b, In a votes /\ In b votes /\ gv_block b <> gv_block a /\ lca t (gv_block b) (gv_block a) = g /\
+    (forall v, In v votes -> gv_block v <> gv_block a -> lca t (gv_block v) (gv_block a) <> gv_block a).
 Proof.
-  intros NDV NS. rewrite psb_unfold, (no_direct_sm_empty NS).
+  intros NDV.
   destruct ghost_facts as [IG [SG MG]].
   assert (TG : (thr < total_votes e st Prevote g)%N) by now apply sm_lt.
   (* some stored vote is below g: otherwise the equivocators alone would exceed the threshold *)
@@ -525,62 +592,57 @@ Proof.
   { intros v Iv NE E. destruct (lca_spec t (gv_block v) (gv_block a)) as [L1 _]. rewrite E in L1.
     assert (ancb t g (gv_block v) = true) by (apply ancb_spec; exact (anc_trans t _ _ _ Ga L1)).
     pose proof (Ma v Iv H). apply anc_le in L1. lia. }
-  pose proof (anc_pass_complete e st Prevote thr votes votes_known votes [] (good_nil _ _ _ _) a Ia LM b Ib NBA) as C.
-  fold t in C. rewrite LG in C. apply C. exact TG.
+  exists a, b. auto.
+Qed.
+
+(* the ghost is the fork point of two vote targets: the pairwise pass selects it *)
+Lemma fork_point_selected : directly_voted st Prevote g = false ->
+  In (g, number e g) (possible_selected_blocks e st Prevote thr).
+Proof.
+  intro NDV. destruct (fork_point_exists NDV) as [a [b [Ia [Ib [NE [LG _]]]]]].
+  apply psb_of_paired. rewrite <- LG. apply paired_good; auto.
+  rewrite LG. apply sm_lt. apply ghost_facts.
 Qed.
 
 (* ---- C21_precommit_target ---- *)
-(* outside the guard of the recorded finding, getPreVotedBlock is the GRANDPA ghost *)
-Lemma prevoted_is_ghost : ghost_missed_guard e st = false ->
-  prevoted_block e st = Ok (mkGV g (number e g)).
+(* getPreVotedBlock is the GRANDPA ghost *)
+Lemma prevoted_is_ghost : prevoted_block e st = Ok (mkGV g (number e g)).
 Proof.
-  intro GG. apply prevoted_when_selected. unfold ghost_missed_guard in GG. rewrite GH in GG.
-  destruct (directly_voted st Prevote g) eqn:DV; [now apply direct_has_ghost|].
-  cbn [negb andb] in GG. apply fork_point_selected; [exact DV|].
-  intros p I. destruct (spec_supermajority e st Prevote (gv_block (snd p))) eqn:Sp; [|reflexivity].
-  assert (existsb (fun p => spec_supermajority e st Prevote (gv_block (snd p))) (s_pv st) = true); [|congruence].
-  apply existsb_exists. eauto.
+  apply prevoted_when_selected.
+  destruct (directly_voted st Prevote g) eqn:DV; [now apply direct_has_ghost|now apply fork_point_selected].
 Qed.
 
-Lemma precommit_is_target : ghost_missed_guard e st = false ->
+Lemma precommit_is_target :
   match spec_target e st with
   | Some tg => determine_precommit true e st = Ok (mkGV tg (number e tg))
   | None => True
   end.
 Proof.
-  intro GG. unfold spec_target, determine_precommit. rewrite GH, (prevoted_is_ghost GG). cbn [obind gv_num gv_block].
+  unfold spec_target, determine_precommit. rewrite GH, prevoted_is_ghost. cbn [obind gv_num gv_block].
   destruct (e_next_change e) as [nc|]; [|reflexivity].
   destruct (N.ltb_spec nc (number e g)) as [L|L]; [|reflexivity].
   rewrite ancestor_by_number_at by lia. destruct (ancestor_at e g nc); [reflexivity|exact I].
 Qed.
 
-(* whatever getPreVotedBlock answers when some block has more than 2/3 of the prevotes is the ghost
-   or one of its ancestors (also inside the guard of the finding) *)
-Lemma prevoted_anc_ghost : exists p, prevoted_block e st = Ok p /\ anc t (gv_block p) g.
+(* the capped target always exists: it is the ancestor of the ghost at the height of the change *)
+Lemma target_defined : exists tg, spec_target e st = Some tg /\ anc t tg g.
 Proof.
-  assert (NE : possible_selected_blocks e st Prevote thr <> []).
-  { destruct (existsb (fun p => spec_supermajority e st Prevote (gv_block (snd p))) (s_pv st)) eqn:X.
-    - apply existsb_exists in X. destruct X as [[a v] [I Sp]]. cbn in Sp.
-      destruct (direct_pass_spec e st Prevote thr votes votes_known votes_clean votes (fun v I => I) [] (good_nil _ _ _ _))
-        as [_ [_ [C _]]].
-      assert (Iv : In v votes) by (apply direct_votes_in; eauto).
-      apply sm_lt in Sp. pose proof (C v Iv Sp) as IN. rewrite psb_unfold.
-      destruct (direct_pass e st Prevote thr votes []); [destruct IN|discriminate].
-    - assert (NS : forall p, In p (s_pv st) -> spec_supermajority e st Prevote (gv_block (snd p)) = false).
-      { intros p I. destruct (spec_supermajority e st Prevote (gv_block (snd p))) eqn:Sp; [|reflexivity].
-        assert (existsb (fun p => spec_supermajority e st Prevote (gv_block (snd p))) (s_pv st) = true); [|congruence].
-        apply existsb_exists. eauto. }
-      destruct (directly_voted st Prevote g) eqn:DV.
-      + intro E. pose proof (direct_has_ghost DV) as IN. rewrite E in IN. destruct IN.
-      + intro E. pose proof (fork_point_selected DV NS) as IN. rewrite E in IN. destruct IN. }
-  unfold prevoted_block. fold thr.
-  pose proof psb_anc_ghost as AG.
-  remember (possible_selected_blocks e st Prevote thr) as m eqn:P. clear P.
-  destruct m as [|[h n] [|q r]]; [congruence| |].
-  - exists (mkGV h n). split; [reflexivity|]. cbn. apply (AG h n). now left.
-  - eexists. split; [reflexivity|].
-    pose proof (highest_spec (mkGV (s_head st) (number e (s_head st))) ((h, n) :: q :: r)) as [A _].
-    destruct A as [->|A]; [exact head_anc_ghost|]. now apply (AG _ _ A).
+  unfold spec_target. rewrite GH. destruct (e_next_change e) as [nc|]; [|exists g; split; [reflexivity|apply anc_refl]].
+  destruct (N.ltb_spec nc (number e g)) as [L|L]; [|exists g; split; [reflexivity|apply anc_refl]].
+  unfold ancestor_at. fold t.
+  destruct (find (fun x => (number e x =? nc)%N) (chain t g)) as [x|] eqn:F.
+  - exists x. split; [reflexivity|]. apply find_some in F. exact (proj1 F).
+  - exfalso. clear - F L. revert F L. unfold number. fold t.
+    induction g as [|b NZ IH] using (block_ind t); intros F L.
+    + rewrite depth_0 in L. lia.
+    + rewrite (chain_nz t b NZ) in F. cbn [find] in F. rewrite (depth_nz t b NZ) in *.
+      destruct (N.eqb_spec (N.of_nat (S (depth t (parent t b)))) nc) as [E|NE]; [discriminate|].
+      destruct (N.eq_dec (N.of_nat (depth t (parent t b))) nc) as [E2|NE2].
+      * destruct (parent t b) as [|pb] eqn:P.
+        -- rewrite chain_0 in F. cbn [find] in F. rewrite depth_0 in *. cbn in E2. subst nc. cbn in F. discriminate.
+        -- rewrite (chain_nz t (S pb)) in F by discriminate. cbn [find] in F.
+           rewrite <- E2 in F. rewrite N.eqb_refl in F. discriminate.
+      * apply IH; [exact F|lia].
 Qed.
 
 End WithGhost.
@@ -620,8 +682,51 @@ Lemma finalises_only b st' g :
   spec_supermajority e st Precommit b = true /\ anc t b g.
 Proof.
   intros TOL GH F. destruct (finalise_spec b st' F) as [S [[p [P A]] _]]. split; [exact S|].
-  destruct (prevoted_anc_ghost g TOL GH) as [p' [P' A']]. rewrite P in P'. injection P' as <-.
-  eapply anc_trans; eauto.
+  rewrite (prevoted_is_ghost g TOL GH) in P. injection P as <-. exact A.
 Qed.
 
 End Main.
+
+(* ---- statements of Properties.v with longer proofs ---- *)
+Definition ex_env := mkEnv [0;0;1;0;1;1;3] 7 5 None 6.
+Definition ex_st := mkSt [(6, mkGV 3 2%N); (1, mkGV 7 3%N); (2, mkGV 4 1%N); (3, mkGV 0 0%N); (4, mkGV 6 2%N)]
+                         [] [(5, 2); (0, 2)] [] 0.
+Lemma wf_ex : wf ex_env ex_st.
+Proof.
+  split; unfold wf_stage; cbn; repeat split; try (repeat constructor; cbn; intuition discriminate);
+    intros v H; cbn in H; intuition (subst; cbn; try lia; try discriminate).
+Qed.
+(* the pinned getPossibleSelectedBlocks (no pairwise pass) answered block 0 although block 1, the
+   fork point of the votes for 3, 6 and 7, has 5 of the 7 votes *)
+Lemma ghost_prefix_refuted :
+  wf ex_env ex_st /\ stored_ok ex_env ex_st = true /\ spec_tolerant ex_env ex_st Prevote = true /\
+  spec_ghost ex_env ex_st Prevote = Some 1 /\
+  prevoted_block_prefix ex_env ex_st = Some (mkGV 0 0%N) /\
+  prevoted_block ex_env ex_st = Ok (mkGV 1 1%N).
+Proof. split; [exact wf_ex|]. vm_compute. repeat split; reflexivity. Qed.
+
+Lemma finalises_only_prevoted : forall e st b st',
+  wf e st -> 0 < e_voters e ->
+  attempt_to_finalize e st = (Ok (Some b), st') ->
+  spec_supermajority e st Precommit b = true /\
+  (exists p, prevoted_block e st = Ok p /\ anc (e_tree e) b (gv_block p)) /\ s_head st' = b.
+Proof.
+  intros e st b st' W NV F.
+  unfold attempt_to_finalize in F. destruct (best_final_candidate e st) as [bfc| | |] eqn:B; try discriminate.
+  destruct (gv_num bfc <? number e (s_head st))%N; [discriminate|].
+  destruct (N.leb_spec (total_votes e st Precommit (gv_block bfc)) (threshold e)) as [L|L]; [discriminate|].
+  injection F as <- <-. split; [|split; [|reflexivity]].
+  - rewrite <- (over_threshold_supermajority e st Precommit (wf_any e st Precommit W) NV). now apply N.ltb_lt.
+  - now apply bfc_anc_prevoted.
+Qed.
+
+Lemma finalises_only_partial : forall e st b st' g,
+  wf e st -> stored_ok e st = true -> 0 < e_voters e -> in_tree (e_tree e) (s_head st) ->
+  spec_tolerant e st Prevote = true -> spec_ghost e st Prevote = Some g ->
+  attempt_to_finalize e st = (Ok (Some b), st') ->
+  finalise_ok e st b = true.
+Proof.
+  intros e st b st' g W SO NV HK TOL GH F.
+  destruct (finalises_only e st W SO NV HK b st' g TOL GH F) as [S A].
+  unfold finalise_ok. rewrite S, GH. now apply ancb_spec.
+Qed.
